@@ -296,6 +296,17 @@ Section Whole.
   Lemma Inv_init : Inv R0.
   Proof. split; [reflexivity|]. intros p it H. rewrite H. auto. Qed.
 
+  (** every item of the input is still there (items are replaced, never removed) *)
+  Definition present (R : registry) : Prop := forall p, reg_get R0 p <> None -> reg_get R p <> None.
+  Lemma present_init : present R0.
+  Proof. intros p H; exact H. Qed.
+  Lemma present_add R it : present R -> present (reg_add R it).
+  Proof.
+    intros HP p Hp. destruct (path_eqb_spec (it_path it) p) as [<-|Hne].
+    - rewrite reg_get_add_same. discriminate.
+    - rewrite reg_get_add_other by exact Hne. auto.
+  Qed.
+
   (** an unresolved item of the current registry is an unresolved item of the input *)
   Lemma Inv_unresolved R p it gd :
     Inv R -> reg_get R p = Some it -> it_state it = Unresolved gd ->
@@ -787,4 +798,36 @@ Proof.
   destruct (alookup_in _ _ _ Eg) as (k' & Hin & ->).
   specialize (H _ Hin). cbn [fst] in H. rewrite Hvp in H. unfold reg_has, amem in H. unfold reg_get.
   destruct (alookup vp (reg_types R0)); [discriminate | reflexivity].
+Qed.
+
+(** ** the two shapes of the lifting, ready for the per-item theorems *)
+Theorem whole_build_enum order ptr mods st0 st p it0 gd ed0 it r :
+  input_state ptr mods = Ok st0 -> collision_free (st_reg st0) ->
+  pyxis_resolve order ptr mods = BOk st ->
+  reg_get (st_reg st0) p = Some it0 -> it_state it0 = Unresolved gd -> gi_inner gd = GIEnum ed0 ->
+  reg_get (st_reg st) p = Some it -> it_state it = Resolved r ->
+  exists st_mid, ext (st_reg st0) (st_reg st0) (st_reg st_mid) /\
+                 ext (st_reg st0) (st_reg st_mid) (st_reg st) /\ enum_build st_mid p ed0 = Ok r.
+Proof.
+  intros Hin Hcf Hres Hg0 Hs0 Hty Hg Hs.
+  destruct (pyxis_resolve_items _ _ _ _ _ Hin Hcf Hres) as (_ & Hall).
+  destruct (Hall _ _ _ _ _ Hg0 Hs0 Hg Hs) as (m & m' & Hext0 & Hat & Hmm' & Hext).
+  unfold attempt in Hat. rewrite Hty in Hat. inversion Hat; subst m'.
+  exists m. auto.
+Qed.
+
+Theorem whole_build_type order ptr mods st0 st p it0 gd td0 it r :
+  input_state ptr mods = Ok st0 -> collision_free (st_reg st0) ->
+  pyxis_resolve order ptr mods = BOk st ->
+  reg_get (st_reg st0) p = Some it0 -> it_state it0 = Unresolved gd -> gi_inner gd = GIType td0 ->
+  reg_get (st_reg st) p = Some it -> it_state it = Resolved r ->
+  exists st_mid st_mid',
+    ext (st_reg st0) (st_reg st0) (st_reg st_mid) /\
+    type_build st_mid p (gi_vis gd) td0 = (st_mid', Ok r) /\
+    ext (st_reg st0) (st_reg st_mid) (st_reg st_mid') /\ ext (st_reg st0) (st_reg st_mid') (st_reg st).
+Proof.
+  intros Hin Hcf Hres Hg0 Hs0 Hty Hg Hs.
+  destruct (pyxis_resolve_items _ _ _ _ _ Hin Hcf Hres) as (_ & Hall).
+  destruct (Hall _ _ _ _ _ Hg0 Hs0 Hg Hs) as (m & m' & Hext0 & Hat & Hmm' & Hext).
+  unfold attempt in Hat. rewrite Hty in Hat. exists m, m'. auto.
 Qed.
